@@ -917,6 +917,14 @@ func (g *Gen) Device(t *GConf, nedits int, unmanaged bool) (*GConf, []string) {
 		a.Lines = dedupLines(a.Lines, g.Kind == "ios")
 	}
 	dedupMembers(d)
+	// Generator self check: no object is defined twice.
+	names := map[string]bool{}
+	for _, a := range d.ACLs {
+		if names[a.Name] {
+			panic("generator: access-list " + a.Name + " defined twice: " + strings.Join(ops, ","))
+		}
+		names[a.Name] = true
+	}
 	// A device never holds the same route line twice.
 	seenRoute := map[string]bool{}
 	var routes []string
